@@ -206,10 +206,13 @@ void ParticleSwarm(const ObjectiveFunction f, const TasDREAM::DreamDomain inside
             }
         }
 
+        // the cached values describe the old positions until the objective returns, f() and inside() may throw
+        state.cache_initialized = false;
         for (size_t i=0; i< num_particles * num_dimensions; i++) {
             state.particle_positions[i] += state.particle_velocities[i];
         }
         f_constrained(state.particle_positions, state.cache_particle_fvals, state.cache_particle_inside, nullptr);
+        state.cache_initialized = true;
         update();
     }
 }
